@@ -85,7 +85,7 @@ theorem clone_step_vstep {f0 g g2 : Forest} {cur x : Nat} {v : Value} (b : Base 
     cases hq
   · intro q hq
     unfold afterOldSite at hq
-    rw [prevSibling_none_of_root hroot, removeConsolidate_none_left] at hq
+    rw [prevSibling_none_of_root hroot, fa_removeConsolidate_none_left] at hq
     unfold selfPrev at hq
     split at hq
     · rw [prevSibling_none_of_root hroot] at hq; cases hq
